@@ -1,5 +1,6 @@
 import Hgxv.Model.Wire
 import Hgxv.Model.C19
+import Hgxv.Model.C19C
 /-! Line protocol for C19 (stateless).
   `filter <H|T|M|D> <weighted 0|1> <nodes> <edges> <weights> <ncrit|none> <ecrit|none> <keep|remove> <keepEdges 0|1>`
      nodes  : natss, inner list `node,a1,v1,a2,v2,..` (value 0 = None, t+1 = token t)
@@ -8,7 +9,9 @@ import Hgxv.Model.C19
      answer : `<nodes> <edges> <weights>` in the model's order, `rej` when the model's filter raises
   `svh <bound> <alpha> <edges natss> <weights nats>`
      answer : one token per size `n:N:na:bonf:thr@nodes=ks=w=p=flag@..`, `-` when there is none
-  `thr <bonf> <ps rats>`  -> `<threshold> <flags>` -/
+  `thr <bonf> <ps rats>`  -> `<threshold> <flags>`
+  `svc <min_order> <max_order|none> <alpha> <edges natss> <weights nats>`
+     answer : `rej` when get_svc raises, else one token per order (descending) `o:N:na:bonf:thr@nodes=ks=w=p=flag@..` -/
 open Wire C19
 
 def decVal (v : Nat) : Option Nat := if v = 0 then none else some (v - 1)
@@ -61,6 +64,13 @@ def showTable (t : SizeTable) : String :=
   toString t.size ++ ":" ++ toString t.N ++ ":" ++ toString t.na ++ ":" ++ showRat t.bonf ++ ":" ++ showRat t.thr ++
     String.join (t.rows.map (fun r => "@" ++ showRow r))
 
+def showCore (t : CoreTable) : String :=
+  toString t.order ++ ":" ++ toString t.N ++ ":" ++ toString t.na ++ ":" ++ showRat t.bonf ++ ":" ++ showRat t.thr ++
+    String.join (t.rows.map (fun r => "@" ++ showRow r))
+
+def decMax (s : String) : Option (Option Nat) :=
+  if s = "none" then some none else (nat? s).map some
+
 def step (s : Unit) : List String → Unit × String
   | ["filter", ty, wt, nodes, edges, weights, nc, ec, mode, keep] =>
     match opsOf ty, natss? nodes, natsss? edges, rats? weights, decCrit nc, decCrit ec with
@@ -80,6 +90,14 @@ def step (s : Unit) : List String → Unit × String
       if es.length ≠ ws.length then (s, "bad-op") else
       (s, showList " " "-" showTable (svh sfExact a (es.zip ws) b))
     | _, _, _, _ => (s, "bad-op")
+  | ["svc", lo, hi, alpha, edges, weights] =>
+    match nat? lo, decMax hi, rat? alpha, natss? edges, nats? weights with
+    | some l, some h, some a, some es, some ws =>
+      if es.length ≠ ws.length then (s, "bad-op") else
+      match svc sfExact a (es.zip ws) l h with
+      | some ts => (s, showList " " "-" showCore ts)
+      | none => (s, "rej")
+    | _, _, _, _, _ => (s, "bad-op")
   | ["thr", bonf, ps] =>
     match rat? bonf, rats? ps with
     | some b, some l => (s, showRat (threshold l b) ++ " " ++ showNats (l.map (fun p => if validated l b p then 1 else 0)))
